@@ -255,15 +255,23 @@ func (b *bare) run(in Input) (obs Obs) {
 		bg.Add(1)
 		go func() {
 			defer bg.Done()
+			// a hook task ends: recorded, then its termination report goes to the collector
+			deliver := func(hid int, e *event.BasicTaskTerminated, ms int) {
+				rec.add(Rec{Kind: "F", Hook: hid})
+				env.VerifC08DeliverEvent(e, ms)
+			}
 			var late, okslow []int
 			for _, hid := range ids {
 				switch op.TaskOut[strconv.Itoa(hid)] {
 				case "", "ok":
-					env.VerifC08DeliverEvent(termEvent(hid, 0, true), 3000)
+					deliver(hid, termEvent(hid, 0, true), 3000)
+				case "okdelay": // ends successfully after a while, well within its time-out
+					time.Sleep(10 * time.Millisecond)
+					deliver(hid, termEvent(hid, 0, true), 3000)
 				case "exit":
-					env.VerifC08DeliverEvent(termEvent(hid, 3, true), 3000)
+					deliver(hid, termEvent(hid, 3, true), 3000)
 				case "invol":
-					env.VerifC08DeliverEvent(termEvent(hid, 0, false), 3000)
+					deliver(hid, termEvent(hid, 0, false), 3000)
 				case "timeout":
 				case "late":
 					late = append(late, hid)
@@ -271,17 +279,17 @@ func (b *bare) run(in Input) (obs Obs) {
 					okslow = append(okslow, hid)
 				default:
 					if code, vol, st, _, ok := parseTermX(op.TaskOut[strconv.Itoa(hid)]); ok {
-						env.VerifC08DeliverEvent(termEventFull(hid, code, vol, st), 3000)
+						deliver(hid, termEventFull(hid, code, vol, st), 3000)
 					}
 				}
 			}
 			if len(late) > 0 || len(okslow) > 0 {
 				time.Sleep(3 * taskTimeoutShort)
 				for _, hid := range late {
-					env.VerifC08DeliverEvent(termEvent(hid, 0, true), 200)
+					deliver(hid, termEvent(hid, 0, true), 200)
 				}
 				for _, hid := range okslow {
-					env.VerifC08DeliverEvent(termEvent(hid, 0, true), 200)
+					deliver(hid, termEvent(hid, 0, true), 200)
 				}
 			}
 		}()
